@@ -2,6 +2,7 @@
 import json, os, random
 import vlib
 from props import muxcommon as mx
+from props import rpcsession as rs
 
 PROP = "C06"
 
@@ -32,6 +33,15 @@ def run(tier, seed, prop=PROP):
     # ---- E3: every recorded trace must be a behaviour of the spec
     c = mx.classify_and_validate(rep, scs, results, outdir, prop)
     cov["binding_selftest_mutations_rejected"] = mx.binding_selftest(outdir, scs)
+    # ---- the session layer above the broker (last clause: each Dispense reaches the server object made for it)
+    rs_runs = rs.model_check()
+    rs_cases, rs_ok, rs_events, rs_packed = rs.run_and_validate(rep, binary, tier, rng, "c06rs")
+    cov["rpcsession"] = {"tlc_runs": [{"cfg": r["cfg"], "distinct": r.get("distinct"), "generated": r.get("generated")} for r in rs_runs],
+                         "cases": len(rs_cases), "traces_accepted": rs_ok, "events": rs_events,
+                         "binding_selftest_mutations_rejected": rs.selftest(rs_packed, "c06rs"),
+                         "rule": "case = (1-3 connections to one RPCServer, 2-8 concurrent Dispense calls by name incl. names that cannot be served, "
+                                 "NextId calls by the plugin's own code, records on the server's stdout/stderr, a goroutine held with an id in hand, close order)"}
+    runs += rs_runs
     fams = {}
     for s in scs:
         fams[s["fam"]] = fams.get(s["fam"], 0) + 1
@@ -57,9 +67,16 @@ def run(tier, seed, prop=PROP):
 
 def replay(path):
     payload = json.load(open(path))
-    sc = payload["case"]["scenario"]
     rep = vlib.Report(payload.get("property", PROP), "quick", payload.get("seed", 0), "model_checking")
     binary = mx.build_driver()
+    if "scenario" not in payload["case"]:
+        # a net/rpc session case
+        c = payload["case"]["case"]
+        rs.make_cases = lambda tier, rng: [c]
+        cases, ok, nev, packed = rs.run_and_validate(rep, binary, "quick", random.Random(0), "c06rsr")
+        rep.coverage.update({"states": 1, "transitions": 1, "traces_validated_against_impl": ok, "samples": [c]})
+        return rep.finish()
+    sc = payload["case"]["scenario"]
     results, outdir = mx.run_driver(binary, [sc], shards=1)
     c = mx.classify_and_validate(rep, [sc], results, outdir, PROP)
     rep.coverage.update({"states": 1, "transitions": 1, "traces_validated_against_impl": c["accepted"], "samples": [sc]})
